@@ -349,6 +349,7 @@ class Report:
         self.known = {f["key"]: f for f in load_known()["findings"] if f["property"] == prop_id}
         self.known_hit = {}
         self.violations = []  # (key, replay dict)
+        self.all_findings = {}
         self.tie_breaks = []  # dicts describing a broken proof obligation / correspondence
         self.coverage = {"samples": []}
         self.assumptions = []
@@ -372,12 +373,18 @@ class Report:
             self.coverage["samples"].append(s)
 
     # --- outcomes
-    def finding(self, key, what, replay):
-        """a property violation observed on the REAL implementation, classified by `key`"""
+    def finding(self, key, what, replay, sub=None):
+        """a property violation observed on the REAL implementation, classified by `key`.
+        A known-findings entry with a "covers" list only covers the listed sub-keys: anything else
+        under the same rule is a new violation (reported as key/sub)."""
+        self.all_findings.setdefault(key, set()).add(sub if sub is not None else "")
         if key in self.known:
-            if key not in self.known_hit:
-                self.known_hit[key] = what
-            return
+            cov = self.known[key].get("covers")
+            if cov is None or sub is None or sub in cov:
+                if key not in self.known_hit:
+                    self.known_hit[key] = what
+                return
+            key = "%s/%s" % (key, sub)
         if len(self.violations) < 50 and not any(k == key for k, _ in self.violations):
             self.violations.append((key, dict(replay, key=key, what=what)))
 
@@ -415,6 +422,7 @@ class Report:
         cov["distribution"] = self.dist
         cov["known_findings_hit"] = sorted(self.known_hit)
         cov["tie_breaks"] = self.tie_breaks
+        cov["findings_observed"] = {k: sorted(v) for k, v in sorted(self.all_findings.items())}
         if obligations:
             cov.update(obligations)
         if extra_cov:
